@@ -207,6 +207,13 @@ def run(ctx):
                             guarded = True
                     ctx.ob('RNG', f'unseeded internal call of {callee.name} happens only when the user has not provided the result',
                            cf, guarded, {'call': ast.unparse(n)[:100]}, node=n)
+    from .common import who_writes
+    PFB = 'voltage.polyphase_filterbank.PolyphaseFilterbank.'
+    w = who_writes(ctx, 'channelized_stds', None)
+    extra = sorted(set(w) - {PFB + '__init__', PFB + 'estimate_channelized_stds'})
+    ctx.ob('RNG', 'a user-seeded channelised-noise estimate is never discarded by the library (only the constructor and '
+           'estimate_channelized_stds assign it), so the unseeded fallback cannot be re-triggered', PFB[:-1], not extra,
+           {'writers': sorted(w), 'unexpected': extra}, node=(w[extra[0]] if extra else None), construct='.channelized_stds writers')
     ctx.note(f'RNG: {len(rng_sites)} default_rng sites, {len(drawers)} drawing functions, {n_calls} internal calls of them')
     # (e) wall-clock time flows only into t_start's default and the stage timers
     for fi, n in time_sites:
